@@ -3,7 +3,10 @@
 // HandleBeforeLocation callback executing a script (read the body fully / partly / not at all, then
 // respond / finish / close).
 //
-// op      : s <keepalives 0|1> <requests> <scripts>
+// op      : s <keepalives 0|1> <requests> <scripts> [<segmentation>]
+//           segmentation of the client's bytes into separate reads (default: everything a burst holds in one read):
+//           l = a read ends after every CRLF; 1 = one byte per read; r<seed> = pseudo-random cut points (about every
+//           12th byte, and with probability 1/2 right after each CRLF).  The server must see the same requests for all.
 // requests: ';' separated   <G|H|P><0|1><n|c|k><n|e|u><y|o>:<body>   |  X4 (garbage line)  |  XU (over-long URI)  |  XH (over-long header)
 //           method, HTTP/1.<p>, Connection none/close/keep-alive, Expect none/100-continue/unknown,
 //           body: y sent with the header (pipelined) / o omitted (next request pipelined) / w waiting client: nothing
@@ -238,10 +241,61 @@ func (c *chunkBody) Read(p []byte) (int, error) {
 }
 func (c *chunkBody) Close() error { return nil }
 
+// segment splits one burst into the separate reads the segmentation mode asks for.
+func segment(data []byte, mode string) [][]byte {
+	if mode == "" || len(data) == 0 {
+		return [][]byte{data}
+	}
+	var cuts []int
+	switch {
+	case mode == "l":
+		for i := 1; i < len(data); i++ {
+			if data[i-1] == '\r' && data[i] == '\n' {
+				cuts = append(cuts, i+1)
+			}
+		}
+	case mode == "1":
+		n := len(data)
+		if n > 3000 {
+			n = 3000 // byte-wise for the first 3000 bytes, the rest in one read
+		}
+		for i := 1; i <= n; i++ {
+			cuts = append(cuts, i)
+		}
+	case mode[0] == 'r':
+		seed, err := strconv.ParseUint(mode[1:], 10, 64)
+		if err != nil {
+			return nil
+		}
+		r := vh.NewRand(seed)
+		for i := 1; i < len(data) && len(cuts) < 4000; i++ {
+			afterCRLF := i >= 2 && data[i-2] == '\r' && data[i-1] == '\n'
+			if (afterCRLF && r.Chance(1, 2)) || r.Chance(1, 12) {
+				cuts = append(cuts, i)
+			}
+		}
+	default:
+		return nil
+	}
+	var out [][]byte
+	prev := 0
+	for _, c := range cuts {
+		if c > prev && c < len(data) {
+			out = append(out, data[prev:c])
+			prev = c
+		}
+	}
+	return append(out, data[prev:])
+}
+
 func exec(op string) string {
 	f := strings.Split(op, " ")
-	if len(f) != 4 || f[0] != "s" || (f[1] != "0" && f[1] != "1") {
+	if (len(f) != 4 && len(f) != 5) || f[0] != "s" || (f[1] != "0" && f[1] != "1") {
 		return "bad-op"
+	}
+	segMode := ""
+	if len(f) == 5 {
+		segMode = f[4]
 	}
 	var parts []bfe_server.VerifC28Part
 	var cur []byte
@@ -313,6 +367,23 @@ func exec(op string) string {
 		}
 		res.Body = cb
 		return bfe_server.VerifC28Response, res
+	}
+	if segMode != "" {
+		var sp []bfe_server.VerifC28Part
+		for _, pt := range parts {
+			if pt.Need100 {
+				sp = append(sp, pt) // a held-back body stays one conditional burst
+				continue
+			}
+			pieces := segment(pt.Data, segMode)
+			if pieces == nil {
+				return "bad-op"
+			}
+			for _, d := range pieces {
+				sp = append(sp, bfe_server.VerifC28Part{Data: d})
+			}
+		}
+		parts = sp
 	}
 	out, _ := bfe_server.VerifC28ServeParts(parts, f[1] == "1", maxHeaderBytes, maxUriBytes, h)
 	out = dateRe.ReplaceAll(out, []byte("\r\nDate: D\r\n"))
@@ -459,7 +530,16 @@ func gen(r *vh.Rand) string {
 	if len(scs) > 0 {
 		sc = strings.Join(scs, ";")
 	}
-	return fmt.Sprintf("s %s %s %s", ka, strings.Join(reqs, ";"), sc)
+	op := fmt.Sprintf("s %s %s %s", ka, strings.Join(reqs, ";"), sc)
+	switch r.Intn(10) {
+	case 0, 1:
+		op += " l"
+	case 2:
+		op += " 1"
+	case 3, 4:
+		op += fmt.Sprintf(" r%d", r.Intn(1000000))
+	}
+	return op
 }
 
 func main() { vh.Main(gen, exec) }
